@@ -168,6 +168,9 @@ def run(ctx):
             out = safe(enc.encode, p)
             sess["ops"].append(["enc", ty, fl, sub, pid, se, payload.hex()])
             add("penc %d %d %d %d %d %s %s" % (ty, fl, sub, pid, se, hx(payload), hx(z)), res(out), "payload-encode", dict(sess, ops=list(sess["ops"])))
+            if comp:
+                # the deflate oracle is validated, not trusted: what zlib.compress returned must inflate (Lean inflater) to the payload
+                add("zchk %s %s" % (hx(payload), hx(z)), "ok", "deflate-oracle-validated", {"payload": payload.hex(), "z": z.hex()})
             if isinstance(out, bytes):
                 wire = out
                 if rng.random() < 0.08 and wire:
@@ -175,12 +178,9 @@ def run(ctx):
                 q = prudp.PRUDPPacket(ty, fl); q.substream_id = sub; q.packet_id = pid; q.session_id = se; q.payload = wire
                 dec = safe(enc.decode, q)
                 plain = safe(twin.decode, q)
-                inflated = "-"
-                if comp and isinstance(plain, bytes) and plain and plain[0] != 0:
-                    try: inflated = hx(zlib.decompress(plain[1:]))
-                    except zlib.error: inflated = "fail"
                 sess["ops"].append(["dec", ty, fl, sub, pid, se, wire.hex()])
-                add("pdec %d %d %d %d %d %s %s" % (ty, fl, sub, pid, se, hx(wire), inflated), res(dec), "payload-decode", dict(sess, ops=list(sess["ops"])))
+                # the reference inflates by itself (NxModel/Crypto/Inflate.lean): no zlib output is handed to it on the decode side
+                add("pdecz %d %d %d %d %d %s" % (ty, fl, sub, pid, se, hx(wire)), res(dec), "payload-decode", dict(sess, ops=list(sess["ops"])))
                 if wire is out and ty == 2 and not isinstance(dec, Exception) and dec != payload:
                     ctx.violation("payload-roundtrip", "PayloadEncoder.decode(encode(payload)) != payload on the real code", dict(sess, ops=list(sess["ops"])))
     # frames of a conforming FOREIGN peer (the library deflates everything it sends; a peer may also store small or incompressible
@@ -212,7 +212,7 @@ def run(ctx):
             q = prudp.PRUDPPacket(2, fl); q.substream_id = sub; q.packet_id = pid; q.session_id = se; q.payload = wire
             dec = safe(enc.decode, q)
             sess["ops"].append(["dec", 2, fl, sub, pid, se, wire.hex()])
-            add("pdec %d %d %d %d %d %s %s" % (2, fl, sub, pid, se, hx(wire), "-" if stored else hx(payload)), res(dec), "payload-decode-foreign-" + ("stored" if stored else "deflated"), dict(sess, ops=list(sess["ops"])))
+            add("pdecz %d %d %d %d %d %s" % (2, fl, sub, pid, se, hx(wire)), res(dec), "payload-decode-foreign-" + ("stored" if stored else "deflated"), dict(sess, ops=list(sess["ops"])))
             if dec != payload:
                 ctx.violation("foreign-frame:" + ("stored" if stored else "deflated"),
                               "a %s compression frame as a conforming peer may send it (%d payload bytes, ratio byte %d) is not decoded to its payload by the real code: %s"
@@ -228,6 +228,39 @@ def run(ctx):
             add("penc 2 2 0 0 0 %s %s" % (hx(payload), hx(z)), res(out), "zlib-ratio-byte", {"payload": payload.hex()})
             if isinstance(out, bytes) and out[0] != len(payload) // len(z) + 1:
                 ctx.violation("zlib-ratio", "ratio byte is not len(data)//len(compressed)+1", {"payload": payload.hex(), "ratio": out[0]})
+
+    # ---- 4b. the inflater of the reference against zlib.decompress: valid streams of every kind, and damaged ones ------------
+    def zadd(d, kind):
+        try: real = "ok " + hx(zlib.decompress(d))
+        except zlib.error: real = "err"
+        add("zinf " + hx(d), real, kind, {"stream": d.hex()})
+    zs = [b"", b"a", b"hello world" * 5, bytes(300), bytes(range(256)) * 3, rng.randbytes(500), b"abcabcabc" * 100,
+          compressible(rng, 1400), rng.randbytes(1400), rng.randbytes(70000 if not quick else 20000)]
+    zs += [compressible(rng, rng.randint(1, 1400)) for _ in range(30 * scale)]
+    for d in zs:
+        for lvl in range(10):
+            zadd(zlib.compress(d, lvl), "inflate-level")
+        for strat in (zlib.Z_FIXED, zlib.Z_HUFFMAN_ONLY, zlib.Z_RLE, zlib.Z_FILTERED):
+            for wb in (9, 12, 15):
+                c = zlib.compressobj(6, zlib.DEFLATED, wb, rng.choice([1, 8, 9]), strat)
+                zadd(c.compress(d) + c.flush(), "inflate-strategy")
+        c = zlib.compressobj(rng.choice([1, 6, 9]))
+        h = len(d) // 2
+        zadd(c.compress(d[:h]) + c.flush(zlib.Z_SYNC_FLUSH) + c.compress(d[h:]) + c.flush(zlib.Z_FULL_FLUSH) + c.flush(), "inflate-multi-block")
+    bases = [zlib.compress(b"hello hello hello hello world, this is a test of the emergency broadcast system" * 2),
+             zlib.compress(bytes(range(40)), 9), zlib.compress(bytes(rng.choice(b"abcdefgh") for _ in range(400)), 9),
+             zlib.compress(rng.randbytes(30), 0)]
+    for base in bases:
+        for i in range(len(base) + 1):
+            zadd(base[:i], "inflate-truncated")
+        flips = range(len(base) * 8) if not quick else sorted(set(list(range(40)) + rng.sample(range(len(base) * 8), min(220, len(base) * 8))))
+        for i in flips:
+            b = bytearray(base); b[i // 8] ^= 1 << (i % 8)
+            zadd(bytes(b), "inflate-bit-flip")
+        zadd(base + b"trailing bytes", "inflate-trailing")
+        zadd(base + base, "inflate-trailing")
+        for hdr in (b"\x78\x9c", b"\x78\x01", b"\x08\x1d", b"\x78\xbb", b"\x88\x1c", b"\x79\x9c", b"\x00\x00"):
+            zadd(hdr + base[2:], "inflate-header")
 
     # ---- 5. Kerberos envelope and connection request / response ---------------------------------------------
     for _ in range(150 * scale):
@@ -423,7 +456,7 @@ def run(ctx):
     ctx.extra["mismatches"] = ndiff
     ctx.extra["exception_class_only_diffs"] = class_diffs
     ctx.extra["reverse_direction_datagrams"] = nrev
-    ctx.assumptions.append("zlib.compress / zlib.decompress output is an oracle input of the reference (deflate is not re-implemented in Lean); the ratio byte and framing are computed by the reference")
+    ctx.assumptions.append("zlib.compress output is an oracle input of the reference (deflate cannot be reproduced byte for byte), validated on every use: it must inflate to the payload under the reference's own inflater (NxModel/Crypto/Inflate.lean, RFC 1950/1951), which replaces zlib.decompress on the decode side and is itself compared with zlib.decompress on valid streams of every level / strategy / window size / flush mode and on truncated, bit-flipped, re-headed and over-long ones; the ratio byte and framing are computed by the reference")
     ctx.assumptions.append("'equals the published protocol' is differential by nature: the Lean reference is fixed and self-consistent (theorems), its agreement with prudp.py is sampled (exhaustive on the small axes)")
 
 
